@@ -318,3 +318,15 @@ Fixpoint py_eqb (a b : json) {struct a} : bool :=
          end) la
   | _, _ => false
   end.
+
+(* compact notation for long periodic strings in generated case files *)
+Fixpoint srepeat (u : string) (k : nat) : string :=
+  match k with O => EmptyString | S j => (u ++ srepeat u j)%string end.
+(* the first n code points of a UTF-8 string *)
+Fixpoint cp_take (n : nat) (s : string) : string :=
+  match s with
+  | EmptyString => EmptyString
+  | String c r =>
+      if is_cont c then String c (cp_take n r)
+      else match n with O => EmptyString | S m => String c (cp_take m r) end
+  end.
